@@ -471,7 +471,17 @@ func runC04(c *Case) {
 				h.feats = chance(r, 60)
 				d := wamp.Dict{"roles": sim.AllFeatures()}
 				if !h.feats {
-					d["roles"] = sim.Roles(map[string][]string{"caller": {}, "callee": {}, "publisher": {}, "subscriber": {}})
+					// announce only some roles, without features; the router does not enforce roles
+					roles := map[string][]string{}
+					for _, role := range []string{"caller", "callee", "publisher", "subscriber"} {
+						if chance(r, 55) {
+							roles[role] = nil
+						}
+					}
+					if len(roles) == 0 {
+						roles[pick(r, []string{"callee", "subscriber"})] = nil
+					}
+					d["roles"] = sim.Roles(roles)
 				}
 				if k != sim.Local && chance(r, 50) {
 					d["authmethods"] = wamp.List{"vtable"}
@@ -523,7 +533,25 @@ func runC04(c *Case) {
 			switch x := r.IntN(100); {
 			case x < 22: // multi-step recipes of contradictory / correlated requests
 				at := attached()
-				switch rec := r.IntN(9); {
+				switch rec := r.IntN(10); {
+				case rec == 9 && len(at) >= 2: // a caller vanishes while its call is pending, then the callee answers
+					a, b := at[0], at[1]
+					if chance(r, 50) {
+						a, b = b, a
+					}
+					proc := wamp.URI("r.pending")
+					b.p.Send(&wamp.Register{Request: b.nextReq(), Options: wamp.Dict{}, Procedure: proc})
+					w.Wait()
+					a.p.Send(&wamp.Call{Request: a.nextReq(), Options: wamp.Dict{"receive_progress": true}, Procedure: proc, Arguments: wamp.List{1}})
+					w.Wait()
+					b.absorb()
+					a.p.Drop()
+					a.state = "gone"
+					w.Wait()
+					for _, prog := range []bool{true, false} {
+						b.p.Send(&wamp.Yield{Request: pickID(r, b.invs), Options: wamp.Dict{"progress": prog}, Arguments: wamp.List{1}})
+					}
+					desc = fmt.Sprintf("recipe[attached feats=%v] CALL, caller drops, callee YIELDs", a.feats)
 				case rec == 0 && len(at) >= 2: // same unknown invocation policy twice, then a call
 					pol := pick(r, []string{"bogus", "", "ROUNDROBIN", "firstlast"})
 					proc := wamp.URI(pick(r, []string{"r.one", "a.b", "r.two"}))
